@@ -200,6 +200,14 @@ def run(ck):
         if not items:
             raise AnalysisError(f"{builder.where}: the {kind} test of the builder was not found among "
                                 f"{[T.show(c) for c in conds]}")
+        if len(items) > 1:
+            # the same test may be met several times (in a helper's return and, negated, in the `if` that calls it)
+            canon = []
+            for c, m_, node_ in items:
+                c2 = want if (c == want or T.mk_not(c) == want) else c
+                if not any(c2 == x for x, _, _ in canon):
+                    canon.append((c2, m_, node_))
+            items = canon
         if kind == "break" and len(items) > 1:
             combined = T.mk_or([c for c, _, _ in items])
             items = [(combined, items[0][1], items[0][2])]
